@@ -96,6 +96,10 @@ func DecodeRuleset(ruleset Ruleset, ctx *Ctx) (err error) {
 				lerr = err
 				continue
 			}
+			if err == ErrContLoop && lerr != nil {
+				// Continue after a lazy break: the iteration ends here, and the loop with it.
+				err = ErrBreakLoop
+			}
 			return
 		}
 	}
